@@ -422,7 +422,94 @@ def t_renameparams(fn):
     return new
 
 
-MODES = {"renameparams": t_renameparams, "unternary": t_unternary, "inset": t_inset, "chaincmp": t_chaincmp, "retbool": t_retbool, "extracttail": t_extracttail, "inlinetmp": t_inlinetmp, "augexpand": t_augexpand, "elsify": t_elsify, "kwargify": t_kwargify, "rename": t_rename, "ifswap": t_ifswap, "cmpflip": t_cmpflip, "rettemp": t_rettemp}
+def t_rec2loop(fn):
+    """tail self-recursion -> `while True:` with the parameters reassigned and `continue`
+    (`return f(a, b)` in a plain function / method, `yield from f(a, b)` in tail position of a generator)"""
+    if has_nested(fn) or fn.args.vararg or fn.args.kwarg or fn.args.kwonlyargs or fn.args.posonlyargs:
+        return None
+    if any(ast.unparse(d) in ("staticmethod", "classmethod", "property") for d in fn.decorator_list):
+        return None
+    if any(isinstance(n, (ast.Global, ast.Nonlocal, ast.Try, ast.With)) for n in ast.walk(fn)):
+        return None
+    params = [a.arg for a in fn.args.args]
+    method = bool(params) and params[0] == "self"
+    recv = params[0] if method else None
+    ps = params[1:] if method else params
+    defaults = dict(zip(reversed(params), reversed(fn.args.defaults)))
+    gen = any(isinstance(n, (ast.Yield, ast.YieldFrom)) for n in ast.walk(fn))
+    if gen and any(isinstance(n, ast.Return) and n.value is not None for n in ast.walk(fn)):
+        return None
+    hit = [0]
+
+    def selfcall(c):
+        if not isinstance(c, ast.Call):
+            return False
+        if method:
+            return isinstance(c.func, ast.Attribute) and isinstance(c.func.value, ast.Name) and c.func.value.id == recv and c.func.attr == fn.name
+        return isinstance(c.func, ast.Name) and c.func.id == fn.name
+
+    def rebinding(c, at):
+        if any(isinstance(a, ast.Starred) for a in c.args) or any(k.arg is None for k in c.keywords) or len(c.args) > len(ps):
+            return None
+        amap = dict(zip(ps, c.args))
+        for k in c.keywords:
+            if k.arg not in ps or k.arg in amap:
+                return None
+            amap[k.arg] = k.value
+        for p_ in ps:
+            if p_ not in amap:
+                if p_ not in defaults:
+                    return None
+                amap[p_] = copy.deepcopy(defaults[p_])
+        ch = [(p_, a) for p_, a in amap.items() if not (isinstance(a, ast.Name) and a.id == p_)]
+        out = []
+        if len(ch) == 1:
+            out.append(ast.Assign(targets=[ast.Name(id=ch[0][0], ctx=ast.Store())], value=ch[0][1]))
+        elif ch:
+            out.append(ast.Assign(targets=[ast.Tuple(elts=[ast.Name(id=p_, ctx=ast.Store()) for p_, _ in ch], ctx=ast.Store())],
+                                  value=ast.Tuple(elts=[a for _, a in ch], ctx=ast.Load())))
+        out.append(ast.Continue())
+        return [ast.copy_location(x, at) for x in out]
+
+    def block(stmts, tail):
+        out = []
+        for i, s_ in enumerate(stmts):
+            last = tail and (i == len(stmts) - 1 or (i == len(stmts) - 2 and isinstance(stmts[-1], ast.Return) and stmts[-1].value is None))
+            if isinstance(s_, (ast.For, ast.While)):
+                out.append(s_)  # a `continue` in there would mean the inner loop
+                continue
+            if not gen and isinstance(s_, ast.Return) and selfcall(s_.value):
+                rb = rebinding(s_.value, s_)
+                if rb is not None:
+                    hit[0] += 1
+                    out.extend(rb)
+                    continue
+            if gen and last and isinstance(s_, ast.Expr) and isinstance(s_.value, ast.YieldFrom) and selfcall(s_.value.value):
+                rb = rebinding(s_.value.value, s_)
+                if rb is not None:
+                    hit[0] += 1
+                    out.extend(rb)
+                    break
+            if isinstance(s_, ast.If):
+                s_ = copy.copy(s_)
+                s_.body = block(s_.body, last)
+                s_.orelse = block(s_.orelse, last) if s_.orelse else []
+            out.append(s_)
+        return out
+    new = copy.deepcopy(fn)
+    body = new.body
+    start = 1 if (body and isinstance(body[0], ast.Expr) and isinstance(body[0].value, ast.Constant) and isinstance(body[0].value.value, str)) else 0
+    # the guard `if not gen` for returns inside nested loops: a return-call inside a for loop is left alone by block()
+    inner = block(body[start:], True)
+    if not hit[0]:
+        return None
+    if not _ends_abrupt(inner):
+        inner.append(ast.Return(value=None))
+    new.body = body[:start] + [ast.While(test=ast.Constant(value=True), body=inner, orelse=[])]
+    return new
+
+
+MODES = {"rec2loop": t_rec2loop, "renameparams": t_renameparams, "unternary": t_unternary, "inset": t_inset, "chaincmp": t_chaincmp, "retbool": t_retbool, "extracttail": t_extracttail, "inlinetmp": t_inlinetmp, "augexpand": t_augexpand, "elsify": t_elsify, "kwargify": t_kwargify, "rename": t_rename, "ifswap": t_ifswap, "cmpflip": t_cmpflip, "rettemp": t_rettemp}
 
 
 def splice(src, fn, new):
